@@ -23,8 +23,8 @@ MODELS = {
  'C02': 'FileLock.tla (implementation-shaped; exhaustive MC of C02_Exclusive incl. crashes) + FileLockConform.tla (recorded executions validated action-by-action against the model with projected state)',
  'C12': 'FileLock.tla (no-residue invariant Quiet, Progress under fairness)',
  'C13': 'FileLock.tla with Crash(p) at every control point (C13_NoOrphanLock, Progress with crashes)',
- 'C03': 'Buffer.tla (timed, contract monitor composed in; witness W_D10) + BufferConform.tla',
- 'C07': 'Buffer.tla (timed, wait(cancel) T/F) + BufferConform.tla',
+ 'C03': 'Buffer.tla (timed; producers that deliver / fail / are empty, deferred puts, loaders, failing invocations; contract monitor composed in; witness W_D10) + BufferConform.tla',
+ 'C07': 'Buffer.tla (timed; wait(cancel) T/F with the wake-up semantics of Event.wait, loop shutdown at every phase: ShutdownTerminates / ShutdownCompletes, witness W_D3 = the repaired defect) + BufferConform.tla',
  'C08': 'Buffer.tla (timed: C08_Quiet / C08_Together decided for every arrival pattern within the bounds) + BufferConform.tla',
  'C04': 'Batcher.tla (timed, contract monitor composed in) + BatcherConform.tla',
  'C09': 'Batcher.tla with CancelCaller (witness W_D4 = the pre-repair behaviour) + BatcherConform.tla',
@@ -73,7 +73,7 @@ CHECKS['C16'] = comp('BridgeContract.tla', 'Every source length 0..6 with a fail
     'C16_Sequence, C16_ErrorAfterN, C16_ForeignException, C16_LoopNotBlocked (ticker beats in virtual time) and C16_NoThreadLeft.')
 CHECKS['C17'] = comp('CrossLoopContract.tla', '1..3 caller threads with their own loops target one loop that is idle / run by loop_in_thread / closed / their own, with coroutines, '
     'tasks and futures that return, raise or sleep, under seeded line-level schedules (controlled Lock, executor, futures, sleep(0) spin); TLC validates C17_Transparent, C17_OnTarget, '
-    'C17_ClosedRaises, C17_OneRunner, C17_StartSync/StopSync and C17_Completes. One genuine defect (concurrent ensure_aw on an idle loop strands a call) is a listed known finding.')
+    'C17_ClosedRaises, C17_OneRunner, C17_StartSync/StopSync and C17_Completes. Two genuine defects with one root cause (is_running() does not tell a temporary runner from the permanent one: concurrent ensure_aw on an idle loop strands a call; loop_in_thread during a temporary run returns early) are listed known findings.')
 def pure(spec, text):
     d = comp(spec, text, 'function transcribed into TLA+ (' + spec + '); TLC enumerates the cases, the real function is executed on each, TLC validates the recorded results against the same specification')
     return d
